@@ -30,37 +30,68 @@ def _phase_desc(e):
     return None
 
 
-def _qpos(e):
+def _subst(e, env):
+    """follow a local that names a helper's parameter (or a plain `let x = <expr>` copy) back to the caller's expression"""
+    seen = 0
+    while env and seen < 8:
+        e0 = hir.strip(e)
+        l = hir.local(e0)
+        if l and l[1] in env:
+            e = env[l[1]]
+            seen += 1
+            continue
+        break
+    return e
+
+
+def _qpos(e, env=None):
     """position i of `g.qs[i]` / `self.qs[i]`"""
-    e = hir.strip(e)
+    e = hir.strip(_subst(e, env))
     if e.get('k') == 'Index':
-        b = hir.strip(e['e'])
+        b = hir.strip(_subst(e['e'], env))
         if b.get('k') == 'Field' and b['name'] == 'qs':
-            return hir.lit_int(e['i'])
+            return hir.lit_int(_subst(e['i'], env))
     return None
 
 
-def tensor_arm(arm_body):
-    """sequence of tensor operations of one arm of Circuit::to_tensor"""
+def tensor_arm(arm_body, facts=None, env=None, depth=0):
+    """sequence of tensor operations of one arm of Circuit::to_tensor; calls of free helper functions of the crate that take the tensor are
+    followed (parameters replaced by the caller's arguments)"""
     ops = []
+    env = dict(env or {})
     st = hir.stmts_of(arm_body)
     for s in st:
+        if s.get('k') == 'Let' and s['pat'].get('k') == 'Bind' and s.get('init') is not None and (s['pat'].get('mode') or '') == 'BindingMode(No, Not)':
+            env[s['pat']['id']] = s['init']
+            continue
         s0 = hir.strip(s)
         if hir.diverges(s0) or any('panic' in (hir.callee(c) or '') for c in hir.calls(s0)):
             ops.append(('panic',))
             continue
+        if s0.get('k') == 'Block':
+            ops += tensor_arm(s0, facts, env, depth)
+            continue
+        if s0.get('k') == 'Call' and facts is not None and depth < 3:
+            cal = hir.callee(s0) or ''
+            hf = facts['fns'].get(cal)
+            if hf is not None and len([p for p in hf['params']]) == len(s0['args']) and all(p.get('k') == 'Bind' for p in hf['params']):
+                e2 = dict(env)
+                for p, a in zip(hf['params'], s0['args']):
+                    e2[p['id']] = a
+                ops += tensor_arm(hf['hir'], facts, e2, depth + 1)
+                continue
         if s0.get('k') != 'MethodCall':
             ops.append(('?', hir.pp(s0)[:40]))
             continue
         n = s0['name']
         if n == 'hadamard_at':
-            ops.append(('H', _qpos(s0['args'][0])))
+            ops.append(('H', _qpos(s0['args'][0], env)))
         elif n == 'cphase_at':
-            qs = hir.strip(s0['args'][1])
+            qs = hir.strip(_subst(s0['args'][1], env))
             allq = qs.get('k') == 'Field' and qs['name'] == 'qs'
-            ops.append(('cphase', _phase_desc(s0['args'][0]), 'all' if allq else hir.pp(qs)[:20]))
+            ops.append(('cphase', _phase_desc(_subst(s0['args'][0], env)), 'all' if allq else hir.pp(qs)[:20]))
         elif n == 'swap_axes':
-            ops.append(('swap', _qpos(s0['args'][0]), _qpos(s0['args'][1])))
+            ops.append(('swap', _qpos(s0['args'][0], env), _qpos(s0['args'][1], env)))
         else:
             ops.append(('?', n))
     return ops
@@ -96,7 +127,7 @@ def tensor_table(facts, key):
     if len(ms) != 1:
         return None
     t, _ = rtable.match_table(ms[0], GT, variants)
-    return {v: tensor_descriptor(tensor_arm(t[v]['body'])) for v in variants if v in t}, ms[0]
+    return {v: tensor_descriptor(tensor_arm(t[v]['body'], facts)) for v in variants if v in t}, ms[0]
 
 
 # ---------------------------------------------------------------- diagram side
